@@ -702,6 +702,9 @@ func (r *FileRestorer) applyDecorations(node ast.Node, name string, decorations 
 
 		// for newline decorations and also line-comments, add a newline
 		if isLineComment || isNewline {
+			if isNewline {
+				r.cursor++ // the line break is a byte of its own, after the end of what precedes it
+			}
 			lineOffset := int(r.cursor) - r.base // remember lines are relative to the file base
 			r.lines = append(r.lines, lineOffset)
 			r.cursor++
